@@ -339,6 +339,27 @@ def gen_C14(tier, seed):
         p.write(101, route='dict', fname='fresh.dlis', **kw2f)
         p.meta['what'] = what
         progs.append(p.build())
+    # the file header (id, sequence number) changed between two writes: the next file is the one of a fresh process
+    for i in range(4):
+        p = Prog(f'C14-reheader-{i}', {'kind': 'reheader'})
+        for fid in (1, 101):
+            if fid == 101:
+                p.next_proc(fresh=True)
+            p.file(fid, vrl=512)
+            final_id, final_seq = ('SECOND-ID' if i % 2 == 0 else 'FIRST-ID'), (7 if i >= 1 else 1)
+            first = fid == 1
+            lf = p.lf(fid, lf=fid, fh_id='FIRST-ID' if first else final_id, fh_seq=1 if first else final_seq)
+            p.origin(lf, name='O', **({'file_id': S('FIRST-ID' if first or i != 3 else final_id)} if i == 3 else {}))
+            c = p.channel(lf, 'CH', data=np.arange(3, dtype='float64'))
+            p.frame(lf, 'FR', [c])
+            if first:
+                p.write(fid, fname='first.dlis')
+                if final_id != 'FIRST-ID':
+                    p.set_header(lf, 'header_id', final_id)
+                if final_seq != 1:
+                    p.set_header(lf, 'sequence_number', final_seq)
+            p.write(fid, fname='second.dlis' if first else 'fresh.dlis')
+        progs.append(p.build())
     # two logical files; after a first write the second one receives objects of classes only the first had, in another order:
     # the sets come out in the order of the calls, as in a process that never wrote before
     orders = [('zone', 'parameter'), ('parameter', 'zone'), ('tool', 'equipment', 'zone'), ('axis', 'comment', 'message', 'zone')]
